@@ -830,3 +830,65 @@ package kcache
   at call(ShutdownCompleted) assert [after-shutdown-initiated] (= lc 1)
   loop 1 inv [every-object-frame-is-forwarded-or-dropped-on-overflow] (and (= nobj (+ nsent ndrop)) (>= nsent 0) (>= ndrop 0) (= lc 0))
 @*/
+
+/*@ iface kcache.watchSession.events
+@*/
+/*@ iface kcache.watchSession.done
+@*/
+/*@ iface kcache.watchSession.stop
+@*/
+/*@ iface kcache.watchSession.Error
+@*/
+/*@ func kcache.newWatchSession
+  props C04
+  fresh result
+  ensures (not (= result vnil))
+@*/
+/*@ func (*kcache._watcher).scheduleRetry
+  props C04
+  fresh result
+  requires (and (not (= {w} vnil)) (not (= {w.lc} vnil)))
+  ensures (not (= result vnil))
+@*/
+/*@ assumed func time.AfterFunc
+  fresh result
+  ensures (not (= result vnil))
+@*/
+/*@ neverclosed kcache._watcher.resetch kcache._watcher.evtch
+@*/
+/*@ chaninv kcache._watcher.evtch
+  requires (not (= $val vnil))
+@*/
+
+/*@ func (*kcache._watcher).run
+  props C04 C10 C14 C12 C08
+  theory watch
+  requires [valid-w] (and (not (= {w} vnil)) (not (= {w.client} vnil)) (not (= {w.resetch} vnil)) (not (= {w.evtch} vnil)) (not (= {w.lc} vnil))
+        (not (= {w.log} vnil)) (not (= {w.ctx} vnil)))
+  requires [has-closed-nothing] (forall ((x V)) (not (select $closed x)))
+  ghost lc : Int := 0
+  ghost inReset : Bool := false
+  ghost resetSeen : Bool := false
+  ghost gver : Str := |str!|
+  ghost lastEvt : V := vnil
+  at recv() set inReset := false
+  at recv(resetch) set inReset := true
+  at recv(resetch) set resetSeen := true
+  at recv(resetch) set gver := $val
+  at recv(retrych) set gver := $val
+  at recv(events) assume [session-events-are-non-nil-and-carry-objects] (=> $ok (and (not (= $val vnil)) (not (= (evt-res $val) vnil))))
+  at recv(events) set lastEvt := $val
+  at recv(events) set gver := (ite $ok (obj-rv (evt-res $val)) gver)
+  at store(outch) assert [output-channel-replaced-only-on-a-controller-reset] inReset
+  at call(newWatchSession) assert [new-session-resumes-after-the-last-event-received] (= $3 gver)
+  at call(scheduleRetry) assert [retry-resumes-after-the-last-event-received] (= $2 gver)
+  at call(scheduleRetry) assert [retries-do-not-go-through-the-controller-reset-channel] (not (= $1 {w.resetch}))
+  at send(outch) assert [forwards-the-session-event-unmodified] (= $val lastEvt)
+  at send()#2 assert [hands-the-current-output-channel-to-the-controller] (= $val {outch})
+  at call(ShutdownInitiated) assert [shutdown-initiated-once] (= lc 0)
+  at call(ShutdownInitiated) set lc := 1
+  at call(ShutdownCompleted) assert [after-shutdown-initiated] (= lc 1)
+  loop 1 inv [version-is-that-of-the-last-event-or-restart] (= {curVersion} gver)
+  loop 1 inv [no-output-channel-before-the-first-reset] (=> (not resetSeen) (= {outch} vnil))
+  loop 1 inv [running] (and (= lc 0) (not (= {session} vnil)) (not (= {ctx} vnil)))
+@*/
